@@ -151,6 +151,8 @@ Section Main.
     - (* SetAd2 *)
       destruct chain as [n|]; [|right; split; reflexivity].
       destruct (call_chain_cases k e n 0) as [[H1 H2]|[H1 H2]]; rewrite H1, H2, ?call_chain_nofault; [left | right]; split; reflexivity.
+    - (* SetXQ *) destruct (call_vld_cases k e 0 v) as [[H1 H2]|[H1 H2]]; rewrite H1, H2; [left | right]; split; reflexivity.
+    - (* Opaque *) right; split; reflexivity.
   Qed.
 
   (* whatever the plan, an operation that raises has touched nothing and notified nobody *)
@@ -231,6 +233,9 @@ Section Main.
       destruct (call_vld vld NoFault 1 ydef_value) as [dv|e1] eqn:E1;
         [apply Hd | intros H; apply Hr in H; subst e1; eapply call_vld_nofault; exact E1].
     - destruct chain as [n|]; [rewrite call_chain_nofault|]; apply Hd.
+    - destruct (call_vld vld NoFault 0 v) as [y|e0] eqn:E;
+        [apply Hd | intros H; apply Hr in H; subst e0; eapply call_vld_nofault; exact E].
+    - apply Hd.
   Qed.
 
   (* ---- one operation under a handler fault ------------------------------------------ *)
@@ -293,8 +298,9 @@ Section Main.
      | FaultCall _ _ => fr || (outcome_eqb (o_out a) (o_out tw) && log_eqb (o_log a) (o_log tw))
      | FaultHandler _ _ => true end) = true ->
     Z.eqb (o_reg a) (o_reg tw) = true ->
+    Z.eqb (o_aux a) (o_aux tw) = true ->
     law_step before pl fr a tw = [].
-  Proof. intros H1 H2 H3 H4 H5 H6 H7. unfold law_step. rewrite H1, H2, H3, H4, H5, H6, H7. reflexivity. Qed.
+  Proof. intros H1 H2 H3 H4 H5 H6 H7 H8. unfold law_step. rewrite H1, H2, H3, H4, H5, H6, H7, H8. reflexivity. Qed.
 
   Lemma clause1_of_step pl s0 o s1 out lg :
     stp pl s0 o = (s1, out, lg) ->
@@ -312,7 +318,7 @@ Section Main.
     cbn [run2]. destruct pl as [|k e|j e].
     - (* no fault *)
       cbn [fired]. destruct (stp NoFault s0 o) as [[s1 out] lg] eqn:E.
-      cbn [law_hist]. rewrite law_step_ok; cbn [o_out o_st o_log o_reg app map].
+      cbn [law_hist]. rewrite law_step_ok; cbn [o_out o_st o_log o_reg o_aux app map].
       + apply IH.
       + eapply clause1_of_step; exact E.
       + destruct out; reflexivity.
@@ -321,10 +327,11 @@ Section Main.
       + apply st_eqb_refl.
       + rewrite outcome_eqb_refl, log_eqb_refl. reflexivity.
       + reflexivity.
+      + reflexivity.
     - (* deciding-callback fault *)
       cbn [fired]. destruct (step_fault_call k e s0 o) as [[H1 H2]|[H1 H2]]; rewrite H1, H2.
       + (* reached *)
-        cbn [law_hist]. rewrite law_step_ok; cbn [o_out o_st o_log o_reg app map is_raise negb orb andb is_nil].
+        cbn [law_hist]. rewrite law_step_ok; cbn [o_out o_st o_log o_reg o_aux app map is_raise negb orb andb is_nil].
         * apply IH.
         * rewrite st_eqb_refl. reflexivity.
         * rewrite exn_eqb_refl. reflexivity.
@@ -333,11 +340,12 @@ Section Main.
         * apply st_eqb_refl.
         * reflexivity.
         * reflexivity.
+        * reflexivity.
       + (* not reached: the operation is the fault-free one, on both objects *)
         destruct (stp NoFault s0 o) as [[s1 out] lg] eqn:E.
         assert (Hf : match out with Raise OtherError => true | _ => false end = false).
         { destruct out as [|e']; [reflexivity|]. apply step_nofault_raises_traiterror in E. subst e'. reflexivity. }
-        rewrite Hf. cbn [law_hist]. rewrite law_step_ok; cbn [o_out o_st o_log o_reg app map negb orb].
+        rewrite Hf. cbn [law_hist]. rewrite law_step_ok; cbn [o_out o_st o_log o_reg o_aux app map negb orb].
         * apply IH.
         * eapply clause1_of_step; exact E.
         * destruct out; reflexivity.
@@ -346,9 +354,10 @@ Section Main.
         * apply st_eqb_refl.
         * rewrite outcome_eqb_refl, log_eqb_refl. reflexivity.
         * reflexivity.
+        * reflexivity.
     - (* handler fault *)
       rewrite step_fault_handler. destruct (stp NoFault s0 o) as [[s1 out] lg] eqn:E. cbn [fst snd].
-      cbn [law_hist]. rewrite law_step_ok; cbn [o_out o_st o_log o_reg app map].
+      cbn [law_hist]. rewrite law_step_ok; cbn [o_out o_st o_log o_reg o_aux app map].
       + apply IH.
       + destruct out as [|e']; [reflexivity|]. apply step_raise_inert in E. destruct E as [-> ->].
         cbn. rewrite st_eqb_refl. reflexivity.
@@ -356,6 +365,7 @@ Section Main.
       + reflexivity.
       + rewrite outcome_eqb_refl. cbn [andb]. apply log_eqb_refl.
       + apply st_eqb_refl.
+      + reflexivity.
       + reflexivity.
       + reflexivity.
   Qed.
@@ -391,7 +401,7 @@ Section Main.
     induction h as [|[o pl] r IH]; intros a o' pl' fr oa ot Hin; [destruct Hin|].
     cbn [run2] in Hin.
     assert (Hsame : forall pl0 fr0 a1 out lg outt lgt rest,
-               In (o', pl', fr, oa, ot) ((o, pl0, fr0, mkObs out a1 lg 0, mkObs outt a1 lgt 0) :: run2' a1 a1 rest) ->
+               In (o', pl', fr, oa, ot) ((o, pl0, fr0, mkObs out a1 lg 0 0, mkObs outt a1 lgt 0 0) :: run2' a1 a1 rest) ->
                rest = r -> o_st oa = o_st ot).
     { intros pl0 fr0 a1 out lg outt lgt rest [Heq|Hin'] ->.
       - injection Heq as _ _ _ <- <-. reflexivity.
